@@ -219,6 +219,27 @@ template <class T> constexpr const char *category()
         return "cat:struct";
 }
 
+// does a value of type T carry a length/count field anywhere?
+template <class T> constexpr bool contains_container();
+template <class Tup> struct tup_cc;
+template <class... A> struct tup_cc<std::tuple<A...>>
+{
+    static constexpr bool value = (contains_container<std::remove_cvref_t<A>>() || ...);
+};
+template <class T> constexpr bool contains_container()
+{
+    if constexpr (is_scalar<T>)
+        return false;
+    else if constexpr (is_str<T> || is_vec<T>::value || is_map<T>::value)
+        return true;
+    else if constexpr (is_pair<T>::value)
+        return contains_container<typename T::first_type>() || contains_container<typename T::second_type>();
+    else if constexpr (is_tup<T>::value)
+        return tup_cc<T>::value;
+    else
+        return tup_cc<decltype(std::declval<T &>().tie())>::value;
+}
+
 // ---------------------------------------------------------------- generator
 struct Gen
 {
@@ -244,7 +265,7 @@ struct Gen
             static const uint32_t B[] = {255,   256,   257,   1000,  4095,  4096,  8191,  8192,
                                          8193,  16383, 16384, 16385, 32767, 32768, 65534, 65535};
             want_big = false;
-            n = main->chance(3, 4) ? B[main->below(16)] : (size_t)main->range(21, 65535);
+            n = main->below(4) ? B[main->below(16)] : (size_t)main->range(21, 65535);
             // contents of a large container come from a counter-based stream keyed by the case
             uint64_t x = main->u32() | 0x100000000ull;
             bigbuf.resize(384 * 1024);
@@ -457,6 +478,9 @@ template <class T> bool eq(const T &a, const T &b)
 }
 
 // ---------------------------------------- the independent reference encoder
+// When set, receives the end offset of the last count field that governs elements which
+// themselves carry counts (used by the truncation target for cost control only).
+inline size_t *enc_outer_count_end = nullptr;
 inline void enc_u16(size_t n, std::string &out)
 {
     uint16_t v = (uint16_t)n; // callers keep n <= 65535 (the statement's domain)
@@ -474,6 +498,9 @@ template <class T> void enc(const T &v, std::string &out)
     else if constexpr (is_vec<T>::value)
     {
         enc_u16(v.size(), out);
+        if constexpr (contains_container<typename T::value_type>())
+            if (enc_outer_count_end)
+                *enc_outer_count_end = out.size();
         for (const auto &e : v)
             enc(e, out);
     }
@@ -638,6 +665,7 @@ struct Scan
 {
     size_t composite_vec_elems = 0; // largest vector<T>, T not arithmetic
     size_t scalar_vec_bytes = 0;    // largest size()*sizeof(T) of a vector<T>, T arithmetic
+    bool null_data_vec = false;     // some vector has data() == nullptr (never allocated, empty)
 };
 template <class T> void scan(const T &v, Scan &sc)
 {
@@ -646,6 +674,8 @@ template <class T> void scan(const T &v, Scan &sc)
     else if constexpr (is_vec<T>::value)
     {
         using E = typename T::value_type;
+        if (v.data() == nullptr)
+            sc.null_data_vec = true;
         if constexpr (is_scalar<E>)
         {
             if (v.size() * sizeof(E) > sc.scalar_vec_bytes)
@@ -727,7 +757,10 @@ template <class T> void make_case(Src &s, Case &c, const char *tname, TwoValues<
     g.maxn = maxn;
     g.budget = budget;
     if constexpr (!is_scalar<T>)
-        g.want_big = s.chance(1, vpbt::tier() ? 24 : 96);
+    {
+        uint64_t den = vpbt::tier() ? 24 : 96;
+        g.want_big = s.below(den) == den - 1; // a zeroed choice sequence stays ordinary
+    }
     gen(g, tv.a);
     g.want_big = false;
     g.budget = budget / 2;
